@@ -1,2 +1,143 @@
-(* C29 — placeholder while the pipeline is brought up *)
-From FH Require Import Model.Base Model.HeaderMap Spec.HeaderSpec.
+(* C29 — Header API behaves as a case-insensitive ordered multimap.  Statements only; proofs live in
+   Proof/HeaderMapProof.v, Proof/HeaderSpecProof.v and Proof/HeaderCaseProof.v.
+
+   Model: Model/HeaderWrite.v (setters, setSpecialHeader, peek) + Model/HeaderMap.v (del, peekAll, All, CopyTo).
+   Spec:  Spec/HeaderSpec.v (ordered multimap keyed by canonical name).
+   Operation sequences: any list of Set / Add / Del / CopyTo (`hop`), on a request header interleaved with
+   iterations (All / VisitAll / PeekKeys / Len collect the cookies: `qev`), starting from a zero header with
+   normalisation on or off and the default content type on or off.
+
+   Guard `ops_guard`: all bytes are < 256, and ONLY when normalisation is off no mutated name is a case variant of
+   a specially handled name.  With normalisation on the guard says nothing about names (C29_guard_normalising).
+   The three known findings are stated as `_refuted` theorems about the model; the positive theorems carry them
+   explicitly (k2adjust in PeekAll) or are restricted to the names they do not touch. *)
+From FH Require Import Model.Base Gen.GenC05 Model.ByteClassModel Model.Cookie Model.HeaderWrite Model.HeaderMap
+  Spec.HeaderSpec Proof.HeaderMapProof Proof.HeaderSpecProof Proof.HeaderCaseProof.
+Open Scope N_scope.
+
+(* with normalisation enabled every canonicalised key passes the case-fold guard *)
+Theorem C29_guard_normalising : forall specials k,
+  forallb canonical_special specials = true -> wf_bytes k ->
+  casefold_ok specials (normalizeHeaderKey k false) = true.
+Proof. exact casefold_ok_normalised. Qed.
+Print Assumptions C29_guard_normalising.
+
+(* ---- every keyed getter agrees with the reference multimap after any operation sequence ---- *)
+(* FULL statement (false of the code, see C29_peek_all_refuted): RPeekAll r k = spec_peek_all ... .
+   Proved: the same with the known finding made explicit — a specially handled name of class number / set-cookie /
+   trailer that holds no value answers one empty value (k2adjust). *)
+Theorem C29_refines_spec_response : forall nonorm nodefct ops k, ops_guard rspecials nonorm ops ->
+  let r := fold_left rstep29 ops (rinit nonorm nodefct) in
+  let m := srun HResp nonorm (map sop_of ops) in
+  let c := canon nonorm k in
+  RPeek r k = spec_peek HResp nodefct m c
+  /\ RPeekAll r k = k2adjust HResp c (spec_peek_all HResp nodefct m c)
+  /\ RContentType r = spec_peek HResp nodefct m strContentType
+  /\ RContentEncoding r = spec_peek HResp nodefct m strContentEncoding
+  /\ RServer r = spec_peek HResp nodefct m strServer.
+Proof. exact resp_refines_spec_g. Qed.
+Print Assumptions C29_refines_spec_response.
+
+Theorem C29_refines_spec_request : forall nonorm nodefct evs k, ops_guard qspecials nonorm (qev_ops evs) ->
+  let q := fold_left qevstep evs (qinit nonorm nodefct) in
+  let m := srun HReq nonorm (map sop_of (qev_ops evs)) in
+  let c := canon nonorm k in
+  QPeek q k = spec_peek HReq nodefct m c
+  /\ QPeekAll q k = (if beq c strCookie && negb (qcookiesCollected q) then spec_peek_all HReq nodefct m c
+                     else k2adjust HReq c (spec_peek_all HReq nodefct m c))
+  /\ QContentType q = spec_peek HReq nodefct m strContentType
+  /\ QHost q = spec_peek HReq nodefct m strHost
+  /\ QUserAgent q = spec_peek HReq nodefct m strUserAgent.
+Proof. exact req_refines_spec_g. Qed.
+Print Assumptions C29_refines_spec_request.
+
+(* All() / VisitAll (hence PeekKeys, Len): the values yielded under an ordinary name, in order.
+   _partial: for the specially handled names All() is checked by the harness only (and is false for Connection,
+   see C29_all_refuted); ContentLength() and ConnectionClose() are checked by the harness only. *)
+Theorem C29_all_ordinary_response_partial : forall nonorm nodefct ops c, ops_guard rspecials nonorm ops -> ordinary_r c = true ->
+  let r := fold_left rstep29 ops (rinit nonorm nodefct) in
+  vals_of (RAll r) c = spec_all_vals HResp nodefct (srun HResp nonorm (map sop_of ops)) c.
+Proof. exact resp_all_ordinary_g. Qed.
+Print Assumptions C29_all_ordinary_response_partial.
+Theorem C29_all_ordinary_request_partial : forall nonorm nodefct evs c, ops_guard qspecials nonorm (qev_ops evs) -> ordinary_q c = true ->
+  let q := fold_left qevstep evs (qinit nonorm nodefct) in
+  vals_of (snd (QAll q)) c = spec_all_vals HReq nodefct (srun HReq nonorm (map sop_of (qev_ops evs))) c.
+Proof. exact req_all_ordinary_g. Qed.
+Print Assumptions C29_all_ordinary_request_partial.
+
+(* ---- deleting, setting or adding one name never changes the values, or their order, under another name ---- *)
+Theorem C29_other_names_untouched_response : forall nonorm nodefct ops o k', ops_guard rspecials nonorm (ops ++ [o]) ->
+  let r := fold_left rstep29 ops (rinit nonorm nodefct) in
+  match op_key nonorm o with Some c => canon nonorm k' <> c | None => True end ->
+  RPeekAll (rstep29 r o) k' = RPeekAll r k' /\ RPeek (rstep29 r o) k' = RPeek r k'.
+Proof. exact resp_other_names_untouched_g. Qed.
+Print Assumptions C29_other_names_untouched_response.
+
+Theorem C29_other_names_untouched_request : forall nonorm nodefct evs o k', ops_guard qspecials nonorm (qev_ops (evs ++ [QOp o])) ->
+  let q := fold_left qevstep evs (qinit nonorm nodefct) in
+  match op_key nonorm o with Some c => canon nonorm k' <> c | None => True end ->
+  QPeekAll (qstep29 q o) k' = QPeekAll q k' /\ QPeek (qstep29 q o) k' = QPeek q k'.
+Proof. exact req_other_names_untouched_g. Qed.
+Print Assumptions C29_other_names_untouched_request.
+
+(* the reference model itself has the property (so agreeing with it is meaningful) *)
+Theorem C29_spec_other_names_untouched : forall t nonorm m o c',
+  match o with SSet k _ | SAdd k _ | SDel k => c' <> canon nonorm k | SCopy => True end ->
+  mm_vals (sstep t nonorm m o) c' = mm_vals m c'.
+Proof. exact sstep_other. Qed.
+Print Assumptions C29_spec_other_names_untouched.
+
+(* the args.go helpers on which the above rests: an order-preserving delete and a first-value replace *)
+Theorem C29_del_stable : forall h k c, c <> k -> peekAllArgs (delAllArgsStable h k) c = peekAllArgs h c.
+Proof. exact peekAll_del_other. Qed.
+Print Assumptions C29_del_stable.
+
+(* ---- known findings (each with its witness) ---- *)
+(* nonorm-special-casefold: without the guard, setting one name changes another *)
+Theorem C29_other_names_untouched_refuted :
+  exists ops o k', Forall wf_opk (ops ++ [o]) /\
+    match op_key true o with Some c => canon true k' <> c | None => True end /\
+    RPeekAll (rstep29 (fold_left rstep29 ops (rinit true false)) o) k' <> RPeekAll (fold_left rstep29 ops (rinit true false)) k'.
+Proof. exact untouched_refuted. Qed.
+Print Assumptions C29_other_names_untouched_refuted.
+(* peekall-unset-special-empty-value *)
+Theorem C29_peek_all_refuted :
+  exists k, RPeekAll (rinit false false) k <> spec_peek_all HResp false (srun HResp false []) (canon false k)
+            /\ RPeekAll (rinit false false) k = [[]] /\ RLen (rinit false false) = 1%Z.
+Proof. exact peek_all_refuted. Qed.
+Print Assumptions C29_peek_all_refuted.
+(* connection-close-keeps-old-value *)
+Theorem C29_all_refuted :
+  let ops := [HSet (s2b "Connection") (s2b "keep-alive"); HSet (s2b "Connection") (s2b "close")] in
+  let r := fold_left rstep29 ops (rinit false false) in
+  vals_of (RAll r) strConnection = [s2b "keep-alive"; s2b "close"]
+  /\ spec_all_vals HResp false (srun HResp false (map sop_of ops)) strConnection = [s2b "close"]
+  /\ RPeekAll r (s2b "Connection") = [s2b "close"].
+Proof. exact all_refuted. Qed.
+Print Assumptions C29_all_refuted.
+
+(* C29_write_read_roundtrip: no theorem.  "Header() then Read() yields the same non-framing fields in the same
+   order" is judged by the harness on the real serialiser and the real parser (Check/C29Check.v roundtrip_ok);
+   the parser is modelled by another property (C09) and is not tied to this model. *)
+
+(* ---- non-vacuity ---- *)
+(* the witness of the repaired defect: Add A; Add X x1; Add B; Add X x2; Del A keeps [x1; x2] *)
+Example C29_ex_stable_delete :
+  let ops := [HAdd (s2b "A") (s2b "1"); HAdd (s2b "X") (s2b "x1"); HAdd (s2b "B") (s2b "2"); HAdd (s2b "X") (s2b "x2"); HDel (s2b "a")] in
+  RPeekAll (fold_left rstep29 ops (rinit false false)) (s2b "x") = [s2b "x1"; s2b "x2"]
+  /\ QPeekAll (fold_left qstep29 ops (qinit false false)) (s2b "x") = [s2b "x1"; s2b "x2"]
+  /\ spec_peek_all HReq false (srun HReq false (map sop_of ops)) (s2b "X") = [s2b "x1"; s2b "x2"].
+Proof. vm_compute. repeat split; reflexivity. Qed.
+Example C29_ex_specials :
+  let ops := [HSet (s2b "content-TYPE") (s2b "a/b"); HAdd (s2b "cookie") (s2b "a=1; b=2"); HAdd (s2b "Cookie") (s2b "c=3");
+              HSet (s2b "Trailer") (s2b "foo, Host, bar"); HSet (s2b "content-length") (s2b "x"); HSet (s2b "Content-Length") (s2b "42")] in
+  let q := fold_left qstep29 ops (qinit false false) in
+  QPeek q (s2b "Content-Type") = s2b "a/b" /\ QPeek q (s2b "COOKIE") = s2b "a=1; b=2; c=3"
+  /\ QPeek q (s2b "trailer") = s2b "Foo, Bar" /\ QPeek q (s2b "Content-Length") = s2b "42"
+  /\ spec_peek HReq false (srun HReq false (map sop_of ops)) (s2b "Cookie") = s2b "a=1; b=2; c=3".
+Proof. vm_compute. repeat split; reflexivity. Qed.
+Example C29_ex_guard : ops_guard rspecials false [HSet (s2b "content-type") (s2b "x"); HDel (s2b "HOST")].
+Proof.
+  repeat constructor; try discriminate;
+    (apply Forall_forall; intros x Hx; vm_compute in Hx; repeat (destruct Hx as [<-|Hx]; [vm_compute; reflexivity|]); contradiction).
+Qed.
